@@ -353,7 +353,7 @@ def execute(scenario, tape):
                            for _s, stt, pid, body, _m in app.frames
                            if stt in ('play', 'paused'))
             w.wait_until(lambda: answered() or app.fin_seen or quiet(),
-                         8000000)
+                         budget=True)
             res = 'answered' if answered() else \
                 ('fin' if app.fin_seen else
                  ('quiet' if quiet() else 'timeout'))
@@ -379,7 +379,7 @@ def execute(scenario, tape):
                 a = tcp.app
                 return a is not None and (a.reached_play or a.fin_seen
                                           or a.state == 'dead')
-            w.wait_until(lambda: ready() or quiet(), 8000000)
+            w.wait_until(lambda: ready() or quiet(), budget=True)
             app = tcp.app
             if app is not None and app.reached_play and not app.fin_seen \
                     and app.beh.get('kind') == 'long':
@@ -413,8 +413,19 @@ def execute(scenario, tape):
                         rec.tid = sim.current.tid
                         st['recs'].append(rec)
                         inv = sim.log('call', 'wait_play')
-                        ok = w.wait_until(lambda: in_play(base) or quiet(),
-                                          6000000)
+                        prev = st['recs'][-2] if len(st['recs']) > 1 \
+                            else None
+                        if prev is not None and prev.op == 'connect' and \
+                                prev.tid == rec.tid and prev.r is not None \
+                                and prev.r.ok:
+                            # something that ought to happen: be patient
+                            ok = w.wait_until(
+                                lambda: in_play(base) or quiet(),
+                                budget=True)
+                        else:
+                            # just pacing (no oracle looks at the result)
+                            ok = w.wait_for(
+                                lambda: in_play(base) or quiet(), 2000000)
                         res = 'play' if in_play(base) else \
                             ('quiet' if quiet() else 'timeout')
                         ret = sim.log('ret', ('wait_play', res))
@@ -427,7 +438,7 @@ def execute(scenario, tape):
                                 rec.extra['ret'] = rec.extra['pret']
                     elif op == 'wait_quiet':
                         inv = sim.log('call', 'wait_quiet')
-                        w.wait_until(quiet, 6000000)
+                        w.wait_for(quiet, 6000000)
                         sim.log('ret', ('wait_quiet', quiet()))
                     elif op == 'sleep':
                         w.sleep(700000)
@@ -441,12 +452,12 @@ def execute(scenario, tape):
             sim.spawn(user(k), 'user%d' % k)
 
         def coord():
-            w.wait_until(lambda: st['done_threads'] == n, 120000000)
+            w.wait_until(lambda: st['done_threads'] == n, budget=False)
             st['final_from'] = sim.seq
             rounds = 0
             for rounds in range(6):
                 call('disc', 'coord', conn.disconnect)
-                if w.wait_until(quiet, 4000000):
+                if w.wait_until(quiet, budget=15000):
                     # a handler/listener may still reconnect: settle
                     w.sleep(300000)
                     if quiet():
@@ -551,6 +562,8 @@ def check(scenario, w, st, res):
         V[:] = [sa]
         return
     ob()
+    if sim.end_state == 'inconclusive':
+        return
     if sim.end_state != 'done':
         if sim.fail_fast:
             V[:] = [('C16/' + s, d) for s, d in V]
